@@ -45,7 +45,7 @@ SameOut(a, b) ==
 HasData(o) == \E i \in 1 .. Len(o) : o[i].o = "write" /\ o[i].f.type = "DATA"
 Apply(e, r) ==
     /\ SameOut(e.out, r.out)
-    /\ s' = r.s
+    /\ s' = [r.s EXCEPT !.lat = CodeLat]
     /\ tw' = IF HasData(e.out) THEN e.t ELSE tw
     /\ bad' = bad \cup (IF s.req > 0 /\ HasData(e.out) THEN {"SilentAfterRequest"} ELSE {})
                   \cup (IF r.s.req > 0 /\ r.s.req > s.req /\ r.s.run THEN {"StoppedAfterRequest"} ELSE {})
@@ -61,12 +61,16 @@ TNext ==
        \/ e.a = "version" /\ Apply(e, SVersion(s, e.c, e.t))
        \/ e.a = "call" /\ Apply(e, SCall(s, e.c, e.cmd, e.t))
        \/ e.a = "cancel" /\ Apply(e, SCancel(s, e.c, e.t))
-       \/ e.a = "recv" /\ Apply(e, SRecv(s, e.fs, e.t))
+       \/ e.a = "recv" /\ \E x \in Lats : Apply(e, SRecv([s EXCEPT !.lat = x], e.fs, e.t))
        \/ e.a = "lost" /\ Apply(e, SLost(s, e.t))
        \/ e.a = "close" /\ Apply(e, SClose(s, e.t))
        \/ e.a = "timer" /\ TimeoutEnabled(s.p) /\ e.t = s.p.hold.t0 + CmdTimeout /\ Apply(e, SCmdTimeout(s, e.t))
        \/ e.a = "timer" /\ ResetTimeoutEnabled(s.g) /\ e.t = s.g.rt + ResetTimeout /\ Apply(e, SResetTimeout(s, e.t))
        \/ e.a = "timer" /\ TimerEnabled(s.g.h) /\ InWindow(e.t - tw) /\ Apply(e, STick(s, e.t))
+       \* a timer of the loop fired and nothing observable happened while no timeout of the model is due: stuttering
+       \/ e.a = "timer" /\ e.out = <<>> /\ ~(TimeoutEnabled(s.p) /\ e.t >= s.p.hold.t0 + CmdTimeout)
+                         /\ ~(ResetTimeoutEnabled(s.g) /\ e.t >= s.g.rt + ResetTimeout)
+                         /\ (~TimerEnabled(s.g.h) \/ e.t - tw < TMax) /\ UNCHANGED <<s, tw, bad>>
        \/ e.a = "end" /\ e.pending = <<>> /\ s.p.hold.c = 0 /\ s.p.wq = <<>> /\ e.out = <<>> /\ UNCHANGED <<s, tw, bad>>
   /\ l' = l + 1 /\ UNCHANGED tid
 TSpec == TInit /\ [][TNext]_tvars
